@@ -254,7 +254,8 @@ func (rg *Rig) buildKind(kind string, seed int64) (interceptor.Factory, error) {
 			opts = append(opts, packetdump.RTPBinaryFormatter(func(pkt *rtp.Packet, _ interceptor.Attributes) ([]byte, error) {
 				return rawRTP(&pkt.Header, pkt.Payload), nil
 			}), packetdump.RTCPBinaryFormatter(func(pkt rtcp.Packet, _ interceptor.Attributes) ([]byte, error) {
-				return pkt.Marshal()
+				// read-only rendering (rtcp's Marshal writes into some packet types)
+				return []byte(fmt.Sprintf("%T %v;", pkt, pkt.DestinationSSRC())), nil
 			}))
 		}
 		if kind == "dump_send" {
